@@ -206,9 +206,9 @@ def explore_case(case, tier, seed, known_active):
         class State:
             I = None
             nassume = 0
-        for path, out in core.explore(wrap_body(case, mods, State), ex=ex, deadline=deadline):
+        for path, out in core.explore(wrap_body(case, mods, State), ex=ex, deadline=deadline, max_paths=getattr(case, 'max_paths', 2000)):
             if path is None:
-                res['inconclusive'].append({'reason': 'time-budget'})
+                res['inconclusive'].append({'reason': out if isinstance(out, str) else 'time-budget'})
                 break
             O, err = out
             I = State.I
